@@ -279,28 +279,28 @@ package agent
 //@     invariant left <= N ==> (forall x U :: cnt(view(values), 0, left, x) == cnt(view(buffer), 0, left, x))
 //@     invariant left > N ==> (forall x U :: cnt(view(values), 0, N, x) == cnt(view(buffer), 0, N, x))
 //@     decreases N + 2 * width - left
-//@   hint call3: forall i :: { view(values)[i] } 0 <= i && i < N ==> view(values)[i] == view(buffer)[i]
-//@   hint before call4: aligned(left, width) && (middle == left + width ==> aligned(middle, width))
-//@   hint before call4: forall a :: { view(buffer[left:middle])[a] } 0 <= a && a < middle - left ==> view(buffer[left:middle])[a] == view(buffer)[left + a]
-//@   hint before call4: forall a :: { view(buffer[middle:right])[a] } 0 <= a && a < right - middle ==> view(buffer[middle:right])[a] == view(buffer)[middle + a]
-//@   hint before call4: rpre(rk) ==> ordered(rk, view(buffer[left:middle]), 0, middle - left)
-//@   hint before call4: rpre(rk) ==> ordered(rk, view(buffer[middle:right]), 0, right - middle)
-//@   hint call4: rpre(rk) ==> ordered(rk, view(values[left:right]), 0, right - left)
-//@   hint call4: forall k :: { view(values)[k] } left <= k && k < right ==> view(values)[k] == view(values[left:right])[k - left]
-//@   hint call4: forall k :: { view(values)[k] } 0 <= k && k < left ==> view(values)[k] == pre(view(values))[k]
-//@   hint call4: forall k :: { view(buffer)[k] } 0 <= k && k < N ==> view(buffer)[k] == pre(view(buffer))[k]
-//@   hint call4: forall x U :: cnt(view(values[left:right]), 0, right - left, x) == cnt(view(buffer[left:middle]), 0, middle - left, x) + cnt(view(buffer[middle:right]), 0, right - middle, x)
-//@   hint call4: forall x U :: { cnt(view(buffer), 0, left, x) } cnt(view(buffer), 0, left, x) == cnt(pre(view(buffer)), 0, left, x)
-//@   hint call4: forall x U :: { cnt(view(values), 0, left, x) } cnt(view(values), 0, left, x) == cnt(pre(view(values)), 0, left, x)
-//@   hint call4: forall x U :: cnt(view(values), 0, left, x) == cnt(view(buffer), 0, left, x)
-//@   hint call4: forall x U :: { cnt(view(values), left, right, x) } cnt(view(values), left, right, x) == cnt(view(values[left:right]), 0, right - left, x)
-//@   hint call4: forall x U :: { cnt(view(buffer), left, middle, x) } cnt(view(buffer), left, middle, x) == cnt(view(buffer[left:middle]), 0, middle - left, x)
-//@   hint call4: forall x U :: { cnt(view(buffer), middle, right, x) } cnt(view(buffer), middle, right, x) == cnt(view(buffer[middle:right]), 0, right - middle, x)
-//@   hint call4: forall x U :: cnt(view(values), left, right, x) == cnt(view(buffer), left, middle, x) + cnt(view(buffer), middle, right, x)
-//@   hint call4: forall x U :: { cnt(view(values), 0, right, x) } cnt(view(values), 0, right, x) == cnt(view(values), 0, left, x) + cnt(view(values), left, right, x)
-//@   hint call4: forall x U :: { cnt(view(buffer), 0, middle, x) } cnt(view(buffer), 0, middle, x) == cnt(view(buffer), 0, left, x) + cnt(view(buffer), left, middle, x)
-//@   hint call4: forall x U :: { cnt(view(buffer), 0, right, x) } cnt(view(buffer), 0, right, x) == cnt(view(buffer), 0, middle, x) + cnt(view(buffer), middle, right, x)
-//@   hint call4: forall x U :: cnt(view(values), 0, right, x) == cnt(view(buffer), 0, right, x)
+//@   hint call copy#2: forall i :: { view(values)[i] } 0 <= i && i < N ==> view(values)[i] == view(buffer)[i]
+//@   hint before call mergeArrays#1: aligned(left, width) && (middle == left + width ==> aligned(middle, width))
+//@   hint before call mergeArrays#1: forall a :: { view(buffer[left:middle])[a] } 0 <= a && a < middle - left ==> view(buffer[left:middle])[a] == view(buffer)[left + a]
+//@   hint before call mergeArrays#1: forall a :: { view(buffer[middle:right])[a] } 0 <= a && a < right - middle ==> view(buffer[middle:right])[a] == view(buffer)[middle + a]
+//@   hint before call mergeArrays#1: rpre(rk) ==> ordered(rk, view(buffer[left:middle]), 0, middle - left)
+//@   hint before call mergeArrays#1: rpre(rk) ==> ordered(rk, view(buffer[middle:right]), 0, right - middle)
+//@   hint call mergeArrays#1: rpre(rk) ==> ordered(rk, view(values[left:right]), 0, right - left)
+//@   hint call mergeArrays#1: forall k :: { view(values)[k] } left <= k && k < right ==> view(values)[k] == view(values[left:right])[k - left]
+//@   hint call mergeArrays#1: forall k :: { view(values)[k] } 0 <= k && k < left ==> view(values)[k] == pre(view(values))[k]
+//@   hint call mergeArrays#1: forall k :: { view(buffer)[k] } 0 <= k && k < N ==> view(buffer)[k] == pre(view(buffer))[k]
+//@   hint call mergeArrays#1: forall x U :: cnt(view(values[left:right]), 0, right - left, x) == cnt(view(buffer[left:middle]), 0, middle - left, x) + cnt(view(buffer[middle:right]), 0, right - middle, x)
+//@   hint call mergeArrays#1: forall x U :: { cnt(view(buffer), 0, left, x) } cnt(view(buffer), 0, left, x) == cnt(pre(view(buffer)), 0, left, x)
+//@   hint call mergeArrays#1: forall x U :: { cnt(view(values), 0, left, x) } cnt(view(values), 0, left, x) == cnt(pre(view(values)), 0, left, x)
+//@   hint call mergeArrays#1: forall x U :: cnt(view(values), 0, left, x) == cnt(view(buffer), 0, left, x)
+//@   hint call mergeArrays#1: forall x U :: { cnt(view(values), left, right, x) } cnt(view(values), left, right, x) == cnt(view(values[left:right]), 0, right - left, x)
+//@   hint call mergeArrays#1: forall x U :: { cnt(view(buffer), left, middle, x) } cnt(view(buffer), left, middle, x) == cnt(view(buffer[left:middle]), 0, middle - left, x)
+//@   hint call mergeArrays#1: forall x U :: { cnt(view(buffer), middle, right, x) } cnt(view(buffer), middle, right, x) == cnt(view(buffer[middle:right]), 0, right - middle, x)
+//@   hint call mergeArrays#1: forall x U :: cnt(view(values), left, right, x) == cnt(view(buffer), left, middle, x) + cnt(view(buffer), middle, right, x)
+//@   hint call mergeArrays#1: forall x U :: { cnt(view(values), 0, right, x) } cnt(view(values), 0, right, x) == cnt(view(values), 0, left, x) + cnt(view(values), left, right, x)
+//@   hint call mergeArrays#1: forall x U :: { cnt(view(buffer), 0, middle, x) } cnt(view(buffer), 0, middle, x) == cnt(view(buffer), 0, left, x) + cnt(view(buffer), left, middle, x)
+//@   hint call mergeArrays#1: forall x U :: { cnt(view(buffer), 0, right, x) } cnt(view(buffer), 0, right, x) == cnt(view(buffer), 0, middle, x) + cnt(view(buffer), middle, right, x)
+//@   hint call mergeArrays#1: forall x U :: cnt(view(values), 0, right, x) == cnt(view(buffer), 0, right, x)
 
 //@ lemma[C09] cnt_point uses cnt_unfold: forall s Seq, k Int, q Int, x U :: { cnt(s, k, q, x) } q == k + 1 ==> cnt(s, k, q, x) == ite(s[k] == x, 1, 0)
 //@ lemma[C09] cnt_five uses cnt_split: forall s Seq, n Int, a Int, b Int, a1 Int, b1 Int, x U :: { cnt(s, 0, n, x), cnt(s, a, a1, x), cnt(s, b, b1, x) } 0 <= a && a < b && b < n && a1 == a + 1 && b1 == b + 1 ==> cnt(s, 0, n, x) == cnt(s, 0, a, x) + cnt(s, a, a1, x) + cnt(s, a1, b, x) + cnt(s, b, b1, x) + cnt(s, b1, n, x)
@@ -612,12 +612,12 @@ package agent
 //@   decreases this.maximum_ - this.depth_, 1, ite(rlen(first) > rlen(second), 1, 0)
 //@   ensures[C08] this.depth_ == old(this.depth_)
 //@   uses cnt_pos, cnt_none
-//@   hint[C07] call5: forall i :: { firstKeys[i] } 0 <= i && i < len(firstKeys) ==> cnt(view(firstKeys), 0, len(firstKeys), firstKeys[i]) >= 1
-//@   hint[C07] call5: forall i :: { firstKeys[i] } 0 <= i && i < len(firstKeys) ==> rkeyof(firstKeys[i], first)
-//@   hint[C07] call7: forall i :: { secondKeys[i] } 0 <= i && i < len(secondKeys) ==> cnt(view(secondKeys), 0, len(secondKeys), secondKeys[i]) >= 1
-//@   hint[C07] call7: forall i :: { secondKeys[i] } 0 <= i && i < len(secondKeys) ==> rkeyof(secondKeys[i], second)
-//@   hint[C07] before call12: rkeyof($arg1, $recv)
-//@   hint[C07] before call13: rkeyof($arg1, $recv)
+//@   hint[C07] call SortValues#1: forall i :: { firstKeys[i] } 0 <= i && i < len(firstKeys) ==> cnt(view(firstKeys), 0, len(firstKeys), firstKeys[i]) >= 1
+//@   hint[C07] call SortValues#1: forall i :: { firstKeys[i] } 0 <= i && i < len(firstKeys) ==> rkeyof(firstKeys[i], first)
+//@   hint[C07] call SortValues#2: forall i :: { secondKeys[i] } 0 <= i && i < len(secondKeys) ==> cnt(view(secondKeys), 0, len(secondKeys), secondKeys[i]) >= 1
+//@   hint[C07] call SortValues#2: forall i :: { secondKeys[i] } 0 <= i && i < len(secondKeys) ==> rkeyof(secondKeys[i], second)
+//@   hint[C07] before call MapIndex#1: rkeyof($arg1, $recv)
+//@   hint[C07] before call MapIndex#2: rkeyof($arg1, $recv)
 //@   loop 1:
 //@     invariant 0 <= i && this.depth_ == old(this.depth_) && this.depth_ < this.maximum_
 //@     invariant firstSize == len(firstKeys) && secondSize == len(secondKeys) && firstSize <= secondSize
